@@ -166,6 +166,19 @@ def ex_e2e(ctx, case, test="BS", num_sim=4, seed=1, layout="C", inject=False, sc
     if n_active > int((numpy.asarray(lam) > 0).sum()) or not _feasible_binary(numpy.asarray(lam, dtype=float).ravel(), n_active):
         ctx.add("skipped_infeasible_rejection_cases")   # rejection sampling would need ~1/p draws: not a statement about scores
         return
+    if seed % 3 != 2:
+        # history on one forecast object: evaluated under another scale factor first, then set to the factor in force and evaluated again -
+        # the scores reported are those of the rates in force now
+        s0 = fore._scale
+        fore.scale(numpy.asarray(s0) * (0.05 if seed % 2 else 4.0))
+        try:
+            with simlog.RngLog(budget=400000):
+                fn(fore, cat, num_simulations=1, seed=0)
+        except Exception:  # noqa  (the first evaluation is history, not the judged call)
+            pass
+        fore.scale(s0)
+        ctx.mon("history:evaluated-rescaled-evaluated", 1)
+        tags["evaluated_under_another_scale_before"] = True
     kw = {"num_simulations": num_sim, "seed": seed}
     if inject and test == "BR" and n_active >= 2:
         # injected uniform numbers (documented injection point): several numbers may land in one bin, i.e. simulated bins holding >= 2 events
